@@ -21,6 +21,8 @@ func propC07() *Property {
 			{ID: "R07.1", Floor: 4, Text: "discoveryResult.block is only set in tryUser from user.decryptor.TryDecrypt on its err==nil edge; userID, userContext.UserName and policy of that literal are loads from the same user", Run: r07_1},
 			{ID: "R07.2", Floor: 5, Text: "tryState: exactly the four phases; tryUser(hintMatch=true) only under CheckUserFromHint(that user)==true; tryUser(hintMatch=false) only under CheckUserFromHint(that user)==false and hintMandatory==false; no other condition guards a trial; the hintMandatory test follows both hint phases; registry phases range over state.users", Run: r07_2},
 			{ID: "R07.4", Floor: 8, Text: "Registry.users is written only by Swap in SetUsers with the old cache retired; discoverUser returns a result under requireCurrent only after publisher.Load()==state was re-checked after tryState; fields of state/user are stored only in buildState; Authentication.generation is dereferenced only in recordAuthenticated after being cleared", Run: r07_4},
+			{ID: "R07.7", Floor: 2, Text: "tryState returns a failure only after whole phases, never from inside a candidate loop", Run: r07_7},
+			{ID: "R07.8", Floor: 2, Text: "every SetUsers call publishes a generation built from its argument (or skips only after comparing every field of the user message)", Run: ruleSetUsersPublishes},
 			{ID: "R07.5", Floor: 4, Text: "Authentication.Record is called only from the two commitServerUserAuthentication; the stream commit follows onOpenSessionRequest()==nil, the packet commit follows AddSession, dispatch and the readySessions hand-over", Run: r07_5},
 			{ID: "R07.6", Floor: 3, Text: "Session.userName is stored only in Session.input from seg.block.BlockContext().UserName; Session.userPolicy is stored only in the constructor and in Session.input", Run: r07_6},
 		},
@@ -763,4 +765,173 @@ func ruleRecheckGeneration(c *RC) {
 			}
 		}
 	}
+}
+
+// r07_7: in tryState a failure result (one that does not come from tryUser)
+// may be returned only after whole phases, never from inside a candidate
+// loop: a failure decided inside a loop depends on which users the source
+// cache happened to hold (seed C07d: "the cached user named by the hint
+// failed, mandatory hint: give up" rejects a different user whose name shares
+// the 4-byte hint, only from that source address).
+func r07_7(c *RC) {
+	p := c.P
+	ts := p.Fn(suPkg, "tryState")
+	if ts == nil {
+		c.Anchor("serveruser.tryState")
+		return
+	}
+	n := 0
+	instrs(ts, func(b *ssa.BasicBlock, _ int, in ssa.Instruction) {
+		r, ok := in.(*ssa.Return)
+		if !ok || len(r.Results) != 1 {
+			return
+		}
+		success := false
+		for _, l := range Leaves(retVal(r, 0), nil) {
+			if cl, ok := l.(*ssa.Call); ok && calleeName(cl) == "tryUser" {
+				success = true
+			}
+		}
+		if success {
+			return
+		}
+		n++
+		// the branch that directly selects this return must not sit in a
+		// loop body (the exit edge of a loop's own header condition - the
+		// candidates are exhausted - is fine)
+		var inLoop []string
+		for _, ce := range controllingEdges(b) {
+			ib := ce.If.Block()
+			if !reachesSelf(ib) {
+				break // outside all loops from here outwards
+			}
+			header := false
+			for _, pr := range ib.Preds {
+				if ib.Dominates(pr) {
+					header = true
+				}
+			}
+			if header && !blockReach(ib.Succs[ce.Idx], nil)[ib] {
+				continue
+			}
+			inLoop = append(inLoop, describe(ce.If.Cond))
+		}
+		key := "failure-return-after-phases"
+		if len(inLoop) == 0 {
+			c.OKH(key, r.Pos(), "failure result returned outside every candidate loop")
+		} else {
+			c.Bad(key, r.Pos(), "tryState gives up from inside a candidate loop (depends on %s): whether a credential is accepted then depends on which users the source cache holds, not only on the registry and the segment", strings.Join(inLoop, "; "))
+		}
+	})
+	if n == 0 {
+		c.Undecided("failure-return-after-phases", ts.Pos(), "no failure return found in tryState")
+	}
+}
+
+// ruleSetUsersPublishes: every call of SetUsers publishes a generation built
+// from its argument; a path that returns without publishing is acceptable
+// only if what it compared covers every field of the user message (or uses
+// proto.Equal) - otherwise a reload that changes an uncovered field (seed
+// C05c: hashedPassword) keeps the retired credential valid.
+func ruleSetUsersPublishes(c *RC) {
+	p := c.P
+	su := p.Fn(suPkg, "Registry.SetUsers")
+	uf := p.Field(suPkg, "Registry", "users")
+	if su == nil || uf == nil {
+		c.Anchor("serveruser.Registry.SetUsers / users")
+		return
+	}
+	var swaps []ssa.Instruction
+	instrs(su, func(_ *ssa.BasicBlock, _ int, in ssa.Instruction) {
+		if n, cl := atomicCallOn(in, uf); n == "Swap" || n == "Store" {
+			// the value published is buildState(users...)
+			for _, l := range Leaves(cl.Common().Args[1], nil) {
+				if bc, ok := l.(*ssa.Call); ok && calleeName(bc) == "buildState" {
+					if prm, ok := bc.Call.Args[0].(*ssa.Parameter); ok && prm.Name() == "users" {
+						swaps = append(swaps, in)
+					}
+				}
+			}
+		}
+	})
+	if len(swaps) == 0 {
+		c.Bad("publish", su.Pos(), "SetUsers does not publish buildState(users)")
+		return
+	}
+	c.OK("publish", swaps[0].Pos(), "SetUsers publishes buildState(users) with an atomic swap")
+	// getters of the user message
+	var need []string
+	if up := p.TypesPkg("pkg/appctl/appctlpb"); up != nil {
+		if obj := up.Scope().Lookup("User"); obj != nil {
+			if st, ok := obj.Type().Underlying().(*types.Struct); ok {
+				for i := 0; i < st.NumFields(); i++ {
+					f := st.Field(i)
+					if f.Exported() {
+						need = append(need, "Get"+f.Name())
+					}
+				}
+			}
+		}
+	}
+	instrs(su, func(_ *ssa.BasicBlock, _ int, in ssa.Instruction) {
+		r, ok := in.(*ssa.Return)
+		if !ok {
+			return
+		}
+		dom := false
+		for _, s := range swaps {
+			if instrDominates(s, in) {
+				dom = true
+			}
+		}
+		key := "every-call-publishes"
+		if dom {
+			c.OKH(key, r.Pos(), "return dominated by the publication")
+			return
+		}
+		// which getters do the functions called before this return use?
+		used := map[string]bool{}
+		protoEqual := false
+		seen := map[*ssa.Function]bool{}
+		var visit func(fn *ssa.Function, d int)
+		visit = func(fn *ssa.Function, d int) {
+			if fn == nil || seen[fn] || d > 4 {
+				return
+			}
+			seen[fn] = true
+			instrs(fn, func(_ *ssa.BasicBlock, _ int, x ssa.Instruction) {
+				cl, ok := x.(ssa.CallInstruction)
+				if !ok {
+					return
+				}
+				id := calleeID(cl)
+				if strings.HasSuffix(id, "proto.Equal") || id == "reflect.DeepEqual" {
+					protoEqual = true
+				}
+				if sc := cl.Common().StaticCallee(); sc != nil {
+					if strings.Contains(id, "appctlpb.User)") {
+						used[sc.Name()] = true
+					}
+					if relPkg(sc) == suPkg && sc.Name() != "buildState" {
+						visit(sc, d+1)
+					}
+				}
+			})
+		}
+		visit(su, 0)
+		var missing []string
+		for _, g := range need {
+			if !used[g] {
+				missing = append(missing, g)
+			}
+		}
+		switch {
+		case protoEqual:
+			c.OKH(key, r.Pos(), "a return without publication is guarded by a whole-message comparison")
+		case len(need) > 0 && len(missing) == 0:
+			c.OKH(key, r.Pos(), "a return without publication compares every field of the user message")
+		default:
+			c.Bad(key, r.Pos(), "SetUsers can return without publishing the new users, and the comparison that allows it does not look at %v of the user message: a reload that changes only such a field keeps the previous generation, so a retired credential still authenticates", missing)
+		}
+	})
 }
